@@ -708,6 +708,9 @@ func c04Run(w *W) {
 			if m.ok {
 				ml := multiLine(ss, m)
 				c04One(w, ml, render(ml))
+				if sn := semiNewline(ss, m); sn != nil && semiNewlineFamily(name, w.thorough()) {
+					c04One(w, sn, render(sn))
+				}
 			}
 		}
 	})
